@@ -279,3 +279,90 @@ MA('C04', 'Functional right scalar mult for linear shortcut swapped', FUNF,
    'Functional.__mul__')
 MA('C04', 'OperatorVectorSum subtracts', OPR, 'OperatorVectorSum._call',
    'out += self.vector', 'out -= self.vector', 'Operator.__add__')
+
+# ---- C05 -------------------------------------------------------------------
+MA('C05', 'LeftScalarMult adjoint without conjugate', OPR,
+   'OperatorLeftScalarMult.adjoint',
+   'return self.scalar.conjugate() * self.operator.adjoint',
+   'return self.scalar * self.operator.adjoint',
+   'OperatorLeftScalarMult.adjoint')
+MA('C05', 'Comp adjoint not reversed', OPR, 'OperatorComp.adjoint',
+   'return OperatorComp(self.right.adjoint, self.left.adjoint, self.__tmp)',
+   'return OperatorComp(self.left.adjoint, self.right.adjoint, self.__tmp)',
+   'OperatorComp.adjoint')
+MA('C05', 'ZeroOperator adjoint keeps direction', DOP, 'ZeroOperator.adjoint',
+   'return ZeroOperator(domain=self.range, range=self.domain)',
+   'return ZeroOperator(domain=self.domain, range=self.range)',
+   'ZeroOperator.adjoint')
+MA('C05', 'RightVectorMult adjoint conj dropped', OPR,
+   'OperatorRightVectorMult.adjoint',
+   'return self.vector.conj() * self.operator.adjoint',
+   'return self.vector * self.operator.adjoint',
+   'OperatorRightVectorMult.adjoint')
+MA('C05', 'LeftVectorMult adjoint multiplies on the wrong side', OPR,
+   'OperatorLeftVectorMult.adjoint',
+   'return self.operator.adjoint * self.vector',
+   'return self.vector * self.operator.adjoint',
+   'OperatorLeftVectorMult.adjoint')
+MA('C05', 'Sum adjoint drops right', OPR, 'OperatorSum.adjoint',
+   'return OperatorSum(self.left.adjoint, self.right.adjoint, self.__tmp_dom, self.__tmp_ran)',
+   'return OperatorSum(self.left.adjoint, self.left.adjoint, self.__tmp_dom, self.__tmp_ran)',
+   'OperatorSum.adjoint')
+MA('C05', 'Scaling adjoint never conjugates', DOP, 'ScalingOperator.adjoint',
+   'if complex(self.scalar).imag == 0.0:...', 'return self',
+   'ScalingOperator.adjoint')
+MA('C05', 'Multiply adjoint without conj for complex', DOP,
+   'MultiplyOperator.adjoint',
+   'return MultiplyOperator(np.conj(self.multiplicand), domain=self.range, range=self.domain)',
+   'return MultiplyOperator(self.multiplicand, domain=self.range, range=self.domain)',
+   'MultiplyOperator.adjoint')
+MA('C05', 'RightScalarMult adjoint scalar squared', OPR,
+   'OperatorRightScalarMult.adjoint',
+   'return self.operator.adjoint * self.scalar.conjugate()',
+   'return self.scalar * (self.operator.adjoint * self.scalar.conjugate())',
+   'OperatorRightScalarMult.adjoint')
+
+# ---- C06 -------------------------------------------------------------------
+UFO = 'odl/ufunc_ops/ufunc_ops.py'
+MA('C06', 'chain rule outer derivative at x', OPR, 'OperatorComp.derivative',
+   'left_deriv = self.left.derivative(self.right(x))',
+   'left_deriv = self.left.derivative(x)', 'OperatorComp.derivative')
+MA('C06', 'right scalar derivative loses inner factor', OPR,
+   'OperatorRightScalarMult.derivative',
+   'return self.scalar * self.operator.derivative(self.scalar * x)',
+   'return self.operator.derivative(self.scalar * x)',
+   'OperatorRightScalarMult.derivative')
+MA('C06', 'cos derivative sign', UFO, 'derivative_factory',
+   'return MultiplyOperator(-sin(self.domain)(point))',
+   'return MultiplyOperator(sin(self.domain)(point))',
+   'derivative_factory[cos]')
+MA('C06', 'power derivative exponent', DOP, 'PowerOperator.derivative',
+   'return self.exponent * MultiplyOperator(...',
+   'return self.exponent * MultiplyOperator(point ** self.exponent, domain=self.domain, range=self.range)',
+   'PowerOperator.derivative')
+MA('C06', 'product rule uses same factor twice', OPR,
+   'OperatorPointwiseProduct.derivative',
+   'right = self.left(x) * self.right.derivative(x)',
+   'right = self.right(x) * self.right.derivative(x)',
+   'OperatorPointwiseProduct.derivative')
+MA('C06', 'right vector derivative at x', OPR,
+   'OperatorRightVectorMult.derivative',
+   'return self.operator.derivative(self.vector * x) * self.vector',
+   'return self.operator.derivative(x) * self.vector',
+   'OperatorRightVectorMult.derivative')
+MA('C06', 'sum derivative temporaries regression', OPR,
+   'OperatorSum.derivative', 'return OperatorSum(self.left.derivative(x)...',
+   'return OperatorSum(self.left.derivative(x), self.right.derivative(x), self.__tmp_dom, self.__tmp_ran)',
+   'OperatorSum.derivative')
+MA('C06', 'sqrt derivative factor', UFO, 'derivative_factory',
+   'return MultiplyOperator(0.5 / self(point))',
+   'return MultiplyOperator(2.0 / self(point))', 'derivative_factory[sqrt]')
+MA('C06', 'constant operator derivative is identity-like', DOP,
+   'ConstantOperator.derivative',
+   'return ZeroOperator(domain=self.domain, range=self.range)',
+   'return ConstantOperator(self.constant, self.domain, self.range)',
+   'ConstantOperator.derivative')
+MA('C06', 'left vector mult derivative drops vector', OPR,
+   'OperatorLeftVectorMult.derivative',
+   'return self.vector * self.operator.derivative(x)',
+   'return self.operator.derivative(x)', 'OperatorLeftVectorMult.derivative')
